@@ -260,6 +260,17 @@ class RedlineEngine:
 
         return results
 
+    @staticmethod
+    def _paragraph_of(anchor_run):
+        """The w:p an anchor run belongs to. The run may sit inside a tracked change: its parent is then the w:ins /
+        w:del wrapper, not the paragraph."""
+        el = anchor_run._element.getparent()
+        if el is None and hasattr(anchor_run, "_parent"):
+            el = getattr(anchor_run._parent, "_element", None)
+        while el is not None and el.tag != qn("w:p"):
+            el = el.getparent()
+        return el
+
     def track_insert(
         self,
         text: str,
@@ -281,9 +292,7 @@ class RedlineEngine:
             if not anchor_run:
                 return None
 
-            current_p = anchor_run._element.getparent()
-            if current_p is None and hasattr(anchor_run, "_parent"):
-                current_p = getattr(anchor_run._parent, "_element", None)
+            current_p = self._paragraph_of(anchor_run)
 
             if current_p is None:
                 return None
@@ -356,9 +365,7 @@ class RedlineEngine:
             if not anchor_run:
                 return ins_elem
 
-            current_p_element = anchor_run._element.getparent()
-            if current_p_element is None and hasattr(anchor_run, "_parent"):
-                current_p_element = getattr(anchor_run._parent, "_element", None)
+            current_p_element = self._paragraph_of(anchor_run)
 
             if current_p_element is None:
                 return ins_elem
@@ -820,8 +827,16 @@ class RedlineEngine:
             if not anchor_run:
                 return False
 
-            parent = anchor_run._element.getparent()
-            index = parent.index(anchor_run._element)
+            anchor_el = anchor_run._element
+            parent = anchor_el.getparent()
+            # The anchor may be the outermost run of a tracked change. A w:ins placed inside that wrapper nests
+            # revision marks - inside a w:del the new text is even hidden with the deleted text. New text next to a
+            # tracked change goes next to its wrapper.
+            if parent.tag in (qn("w:ins"), qn("w:del")) and len(parent) > 0:
+                if anchor_el is (parent[0] if insert_before else parent[-1]):
+                    anchor_el = parent
+                    parent = parent.getparent()
+            index = parent.index(anchor_el)
 
             final_new_text = edit.new_text or ""
 
